@@ -18,21 +18,24 @@ from . import p_c01, p_c02, p_c09, witness
 TECHNIQUE = 'static analysis: code-generator templates recovered from format_args! constants in MIR; generated witness crate type-checked by rustc; event-language equality of instantiated templates against the language table; placeholder provenance (units) and format-string-position lint'
 LEVEL = "other"
 EXPLANATION = (
-    "Translation-validation style static check of the code generator, per template and for all programs at once: "
-    "(TYPECHECK) every template of compile::command/area/build_source, instantiated with named constants inside the "
-    "emitted prelude in both variants (Vec stacks for levels 1-2, HashMap stacks for level 0), is accepted by rustc "
-    "against the number-only library build; (SIB) the event language of each instantiated command template over all "
+    'Translation-validation style static check of the code generator, per template and for all programs at once: '
+    '(TYPECHECK) every template of compile::command/area/build_source, instantiated with named constants inside the '
+    'emitted prelude in both variants (Vec stacks for levels 1-2, HashMap stacks for level 0), is accepted by rustc '
+    'against the number-only library build; (SIB) the event language of each instantiated command template over all '
     "its paths equals the language table's row for that kind (the same table the interpreter is checked against in "
-    "C01), with the placeholders' bindings (syllables, dots, their product) read from the generator's MIR; (AREA) "
-    "the emitted comparison pops the current stack, compares with the command's count, takes the first arm exactly "
-    "on Less for ? and Equal for !, and the label / ♡ pieces implement the jump rules (register-or-lookup, record the "
-    "jump source only when jumping, ♡ returns to it); the generator emits exactly the known set of templates; "
-    "(POP/PUSH) the emitted Stack::pop/push in both variants have the compiled form of the I/O rules (exit 0/1, "
-    "line-wise reversed refill only of stack 0 and only when empty, NaN on empty/out of range, NaN never stored on an "
-    "empty stack, non-negative -> checked char, else negated number); (UNITS) every value emitted as a control target "
-    "is a block index (label table entries, pending ♡ target, start block) and the loop bound is the block count; "
-    "(CODEC) restored stacks are read back with the inverse of the writer (C09). NOT decided: brace balance and "
-    "shape of the dispatch tree and of nested areas for arbitrary sizes, equality of outputs as such."
+    "C01), with the placeholders' bindings (syllables, dots, their product) read from the generator's MIR; (AREA) the "
+    "emitted comparison pops the current stack, compares with the command's count, takes the first arm exactly on "
+    'Less for ? and Equal for !, and the label / ♡ pieces implement the jump rules (register-or-lookup, record the '
+    'jump source only when jumping, ♡ returns to it); the generator emits exactly the known set of templates; '
+    '(POP/PUSH) the emitted Stack::pop/push in both variants have the compiled form of the I/O rules (exit 0/1, '
+    'line-wise reversed refill only of stack 0 and only when empty, NaN on empty/out of range, NaN never stored on an '
+    'empty stack, non-negative -> checked char, else negated number); (UNITS) every value emitted as a control target '
+    'is a block index (label table entries, pending ♡ target, start block) and the loop bound is the block count; '
+    '(CODEC) restored stacks are read back with the inverse of the writer (C09), every element in order; the label '
+    'table is sorted by command index before the single-cursor rewrite to block indices; (FMTPOS) no hole filled with '
+    'computed text stands in the format-string position of an emitted print!/eprint!/format!-style macro (a `{` in '
+    'pre-computed output would otherwise make rustc reject the program). NOT decided: brace balance and shape of the '
+    'dispatch tree and of nested areas for arbitrary sizes, equality of outputs as such.'
 )
 ASSUMPTIONS = [
     "rustc MIR (nightly 1.97, mir-opt-level=0) of /repo and of the generated witness crate",
